@@ -1234,3 +1234,22 @@ package lorawan
 //@ func lemmaC04_joinaccept_cipher
 //@   props C04
 //@   inlines (*PHYPayload).EncryptJoinAcceptPayload (*PHYPayload).DecryptJoinAcceptPayload (JoinAcceptPayload).MarshalBinary (*JoinAcceptPayload).UnmarshalBinary
+
+// ----- the two remaining encoders of the root package
+//@ func (ProprietaryMACCommandPayload).MarshalBinary
+//@   props C06 C07 C09 C10
+//@   modifies nothing
+//@   ensures same: err == nil && result == p.Bytes
+// CFList type 1: up to six channel masks, 2 bytes each (little endian), in order
+//@ func (CFListChannelMaskPayload).MarshalBinary
+//@   props C06 C07 C09 C10
+//@   modifies nothing
+//@   ensures C07/range: (err == nil) == (len(p.ChannelMasks) <= 6)
+//@   ensures C06/len: err == nil ==> len(result) == 2 * len(p.ChannelMasks)
+//@   ensures C06/wire: err == nil ==> forall k int :: 0 <= k && k < len(p.ChannelMasks) ==> le16(result[2*k], result[2*k+1]) == chmask16(p.ChannelMasks[k])
+//@   ensures C10/fresh: err == nil ==> result == nil || fresh(result)
+//@   loop 0: invariant idx: rangeindex >= 0 - 1 && rangeindex < len(p.ChannelMasks) && len(p.ChannelMasks) <= 6
+//@   loop 0: invariant out-len: len(out) == 2 * (rangeindex + 1)
+//@   loop 0: invariant out-fresh: out == nil || fresh(out)
+//@   loop 0: invariant done: forall k int :: 0 <= k && k <= rangeindex ==> le16(out[2*k], out[2*k+1]) == chmask16(p.ChannelMasks[k])
+//@   loop 0: decreases len(p.ChannelMasks) - rangeindex
